@@ -25,12 +25,12 @@
 //   reference_array_wellformed_if_ok, reference_array_consumed (+ skip_*, var_record*, check_*record* of the cursor helpers).
 // Registered finding (findings/names.json): C16 XTI.iSupBook ignored: external references listed under an own sheet (1 marker assertion).
 //   Fixed: C06 first token sliced without length check; C16 relative flags of the column field not decoded.
-// parse_workbook is verified UNDER A HYPOTHESIS (`wb_hyp`, satisfiable: witness_wb_hyp) so that none of the implicit obligations that
-//   unit xlswb registers as C06 findings for its unconditional copy fails here a second time; Reference::from_stream needs no hypothesis
-//   (the current text checks every read).
+// parse_workbook is verified without hypothesis (its former `requires wb_hyp` is gone: truncated CodePage / Date1904 / ExternSheet / Lbl
+//   records and sheet positions beyond the stream are rejected with Err by the current text); the name / reference of an Lbl record is
+//   pinned down for records that are exactly their fields (`lbl_wf`). Reference::from_stream needs no hypothesis either.
 // Declared rewrites of real code: see the `replace` directives (format! -> trusted wrappers with the same expression as body; or_else with
 //   `&mut` captures; map/collect chains inside the generic impl -> explicit loops with the closure bodies re-inserted verbatim;
-//   chunks/take/map -> explicit loop over the same Chunks iterator).
+//   chunks_exact/take/map -> explicit loop over the same ChunksExact iterator).
 // Not pinned down: `Reference::path` (PathBuf is outside the verifier), set_libid itself (trusted contract from its text), the reference
 //   text of names whose formula starts with any other token ("Unsupported ptg" message), BIFF5 NAME records.
 #![feature(allocator_api)]
@@ -40,7 +40,8 @@ use vstd::prelude::*;
 use std::io::{Read, Seek};
 use std::marker::PhantomData;
 use std::collections::BTreeMap;
-use std::slice::Chunks;
+use std::slice::ChunksExact;
+use std::cmp::min;
 
 verus! {
 
